@@ -11,6 +11,7 @@ import (
 	"sort"
 	"strconv"
 	"strings"
+	"sync"
 	"sync/atomic"
 
 	"github.com/99designs/gqlgen/graphql"
@@ -59,6 +60,9 @@ type Uni struct {
 
 	// PanicsThrown counts the panics raised by resolvers and the directive on behalf of the plan.
 	PanicsThrown atomic.Int32
+
+	rmu    sync.Mutex
+	raised []refexec.Err
 
 	bind    map[string]refexec.Binding
 	retType map[string]reflect.Type
@@ -173,6 +177,28 @@ func retErr(ft reflect.Type, err error) []reflect.Value {
 // ErrKilled is returned by resolvers released at the end of a run.
 var ErrKilled = errors.New("killed")
 
+// raise records a failure that user code (resolver or directive) really produced at path.
+func (u *Uni) raise(path, msg string) {
+	u.rmu.Lock()
+	u.raised = append(u.raised, refexec.Err{Path: path, Class: refexec.ClassOf(msg)})
+	u.rmu.Unlock()
+}
+
+// Raised returns the failures user code produced so far: each is an originating failure that
+// the response must report.
+func (u *Uni) Raised() []refexec.Err {
+	u.rmu.Lock()
+	defer u.rmu.Unlock()
+	return append([]refexec.Err(nil), u.raised...)
+}
+
+// ResetRaised forgets the recorded failures (between executions on one server).
+func (u *Uni) ResetRaised() {
+	u.rmu.Lock()
+	u.raised = nil
+	u.rmu.Unlock()
+}
+
 func (u *Uni) call(objType string, fd *ast.FieldDefinition, ft reflect.Type, args []reflect.Value) []reflect.Value {
 	ctx := args[0].Interface().(context.Context)
 	fc := graphql.GetFieldContext(ctx)
@@ -215,13 +241,16 @@ func (u *Uni) call(objType string, fd *ast.FieldDefinition, ft reflect.Type, arg
 	b := u.bind[objType+"."+fd.Name]
 	switch u.Plan.Resolver(path, b.Nilable) {
 	case refexec.KError:
+		u.raise(path, u.Plan.ErrMsg(path))
 		return retErr(ft, errors.New(u.Plan.ErrMsg(path)))
 	case refexec.KPanic:
 		u.PanicsThrown.Add(1)
+		u.raise(path, u.Plan.PanicMsg(path))
 		panic(u.Plan.PanicMsg(path))
 	case refexec.KNull:
 		return retErr(ft, nil)
 	case refexec.KAddErrNull:
+		u.raise(path, u.Plan.ErrMsg(path))
 		graphql.AddError(ctx, errors.New(u.Plan.ErrMsg(path)))
 		// a second seam between recording the error and returning nil: sibling failures can be
 		// scheduled into this window
@@ -257,9 +286,11 @@ func (u *Uni) Guard(ctx context.Context, obj any, next graphql.Resolver, tag *st
 	case refexec.DBlock:
 		return nil, nil
 	case refexec.DError:
+		u.raise(path, u.Plan.DirErrMsg(path))
 		return nil, errors.New(u.Plan.DirErrMsg(path))
 	case refexec.DPanic:
 		u.PanicsThrown.Add(1)
+		u.raise(path, u.Plan.PanicMsg(path+"@guard"))
 		panic(u.Plan.PanicMsg(path + "@guard"))
 	case refexec.DReplace:
 		rt := u.retType[fc.Object+"."+fc.Field.Name]
@@ -271,6 +302,7 @@ func (u *Uni) Guard(ctx context.Context, obj any, next graphql.Resolver, tag *st
 		if err != nil {
 			return nil, err
 		}
+		u.raise(path, u.Plan.DirErrMsg(path))
 		return nil, errors.New(u.Plan.DirErrMsg(path))
 	}
 	return next(ctx)
